@@ -62,6 +62,10 @@ def sim_calls(EoN, G, n):
         Hm = nx.DiGraph(); Hm.add_edge("I", 0, rate=0.7); Hm.add_edge(0, "S", rate=0.3)
         Jm = nx.DiGraph(); Jm.add_edge(("I", "S"), ("I", "I"), rate=0.8)
         calls["Gillespie_simple_contagion(mixed labels)" + f] = (EoN.Gillespie_simple_contagion, (G, Hm, Jm, dict(ICd), ["S", "I", 0]), dict(tmax=3, return_full_data=full))
+        # a model graph with a transition that is switched off (rate exactly 0) - e.g. one step of a parameter sweep
+        Hz = nx.DiGraph(); Hz.add_edge("I", "R", rate=0.7); Hz.add_edge("R", "S", rate=0.0)
+        Jz = nx.DiGraph(); Jz.add_edge(("I", "S"), ("I", "I"), rate=0.8); Jz.add_edge(("R", "S"), ("R", "R"), rate=0.0)
+        calls["Gillespie_simple_contagion(zero-rate transitions)" + f] = (EoN.Gillespie_simple_contagion, (G, Hz, Jz, dict(ICd), ["S", "I", "R"]), dict(tmax=3, return_full_data=full))
         # initial sets passed as sets / tuples (the caller's containers)
         calls["Gillespie_SIR(sets)" + f] = (EoN.Gillespie_SIR, (G, 0.8, 0.7), dict(initial_infecteds=set(I0), initial_recovereds=set(R0), return_full_data=full))
         calls["fast_SIR(sets)" + f] = (EoN.fast_SIR, (G, 0.8, 0.7), dict(initial_infecteds=set(I0), initial_recovereds=set(R0), return_full_data=full))
